@@ -1020,6 +1020,75 @@ func c14Block(h *H, version int) {
 // buffer path, with the preceding bytes handed over in the Writer's buffer or chained; run in both builds by C15
 func init() { runners["c14col"] = runC14Col }
 
+// c14Multi: several columns of one kind through ONE Writer, flushed once (what WriteBlock does for a block with several
+// columns of a type): what arrives is the concatenation of their buffer encodings - a column's bytes must not depend on
+// the columns written after it before the Flush
+func c14Multi(h *H, s c14ColSpec, rows, k int) {
+	seed := h.R.Int63()
+	cname := fmt.Sprintf("multi %s rows=%d columns=%d seed=%d", strconv.Quote(s.name()), rows, k, seed)
+	cname = strings.ReplaceAll(cname, "\t", " ")
+	var want []byte
+	var out bytes.Buffer
+	w := proto.NewWriter(&out, new(proto.Buffer))
+	err := c14Guard(func() error {
+		for i := 0; i < k; i++ {
+			n := rows // a later column as large as the earlier ones (the same size class in every path)
+			if i == 2 {
+				n = rows - 1
+			}
+			c1, err := c14Make(s, n, seed+int64(i), false)
+			if err != nil {
+				return err
+			}
+			c2, _ := c14Make(s, n, seed+int64(i), false)
+			for _, c := range []proto.Column{c1, c2} {
+				if p, ok := c.(proto.Preparable); ok {
+					if err := p.Prepare(); err != nil {
+						return err
+					}
+				}
+			}
+			b := &proto.Buffer{}
+			if se, ok := c1.(proto.StateEncoder); ok {
+				se.EncodeState(b)
+			}
+			c1.EncodeColumn(b)
+			want = append(want, b.Buf...)
+			if se, ok := c2.(proto.StateEncoder); ok {
+				w.ChainBuffer(se.EncodeState)
+			}
+			c2.WriteColumn(w)
+		}
+		_, err := w.Flush()
+		return err
+	})
+	oracle := "ok"
+	switch {
+	case err != nil:
+		h.Stat("c14.multi.skipped")
+		oracle = "-"
+	case !bytes.Equal(out.Bytes(), want):
+		d := 0
+		got := out.Bytes()
+		for d < len(got) && d < len(want) && got[d] == want[d] {
+			d++
+		}
+		oracle = fmt.Sprintf("FAIL:%d columns written through one Writer and flushed once differ from their buffer encodings at byte %d of %d (%d bytes arrived)", k, d, len(want), len(got))
+	}
+	h.Emit(cname, "-", oracle)
+	h.Stat("c14.multi")
+}
+
+func c14MultiAll(h *H) {
+	for _, s := range c14Catalogue {
+		c14Multi(h, s, 50, 2+h.R.Intn(2))
+		n := s.name()
+		if !strings.Contains(n, "Array(") && !strings.Contains(n, "Map(") && !strings.Contains(n, "Tuple(") && !strings.Contains(n, "FixedString(512)") {
+			c14Multi(h, s, []int{4096, 5000, 8192}[h.R.Intn(3)], 2)
+		}
+	}
+}
+
 func runC14Col(h *H) {
 	for _, s := range c14Catalogue {
 		for _, rows := range c14RowCounts {
@@ -1029,6 +1098,7 @@ func runC14Col(h *H) {
 			}
 		}
 	}
+	c14MultiAll(h)
 }
 
 func runC14(h *H) {
@@ -1066,6 +1136,7 @@ func runC14(h *H) {
 			}
 		}
 	}
+	c14MultiAll(h)
 	revs := revisions(h)
 	for i := 0; i < 200*rounds; i++ {
 		c14Block(h, revs[h.R.Intn(len(revs))])
